@@ -9,6 +9,7 @@ import (
 	"os"
 	"sort"
 	"strings"
+	"sync"
 	"time"
 
 	"github.com/attestantio/vouch/util"
@@ -126,6 +127,22 @@ func toYAML(ss []setting) string {
 }
 
 var envSet []string
+
+// lookupStr makes one hierarchical lookup and prints its answer.
+func lookupStr(v, lp string) string {
+	switch v {
+	case "beacon-node-addresses":
+		return fmt.Sprint(util.BeaconNodeAddresses(lp))
+	case "timeout":
+		return util.Timeout(lp).String()
+	case "log-level":
+		return util.LogLevel(lp).String()
+	case "process-concurrency":
+		return fmt.Sprint(util.ProcessConcurrency(lp))
+	default:
+		return fmt.Sprint(util.HierarchicalBool(v, lp))
+	}
+}
 
 func run(c *harness.Ctx) {
 	zerolog.SetGlobalLevel(zerolog.Disabled)
@@ -364,6 +381,36 @@ func run(c *harness.Ctx) {
 					}
 				}
 			}
+			// The same lookups from several goroutines at once, as services that are constructed side by side
+			// make them: each must still give the answer it gives alone.
+			if t%3 == 0 {
+				alone := map[string]string{}
+				for _, lp := range lookups {
+					for _, v := range vars {
+						alone[v+"|"+lp] = lookupStr(v, lp)
+					}
+				}
+				var wg sync.WaitGroup
+				for g := 0; g < 4; g++ {
+					wg.Add(1)
+					go func(g int) {
+						defer wg.Done()
+						for i := range lookups {
+							lp := lookups[(i*(2*g+1)+g)%len(lookups)]
+							for j := range vars {
+								v := vars[(j+g)%len(vars)]
+								if got := lookupStr(v, lp); got != alone[v+"|"+lp] {
+									c.Violate("concurrent-lookup-differs:"+v, fmt.Sprintf("%s(%q) called while three other goroutines made lookups gave %s; alone it gives %s", v, lp, got, alone[v+"|"+lp]), fmt.Sprintf("tree%d", t),
+										map[string]any{"settings": ss, "mode": mode, "lookup": lp, "got": got, "want": alone[v+"|"+lp]})
+									return
+								}
+							}
+						}
+					}(g)
+				}
+				wg.Wait()
+				c.Count("concurrent_lookups", int64(4*len(lookups)*len(vars)))
+			}
 			if t < 2 {
 				c.Sample(map[string]any{"settings": ss, "legacy": legacy, "mode": []string{"viper.Set", "yaml", "env", "mixed"}[mode], "sources": sources, "lookups": lookups})
 			}
@@ -376,9 +423,9 @@ func main() {
 	harness.Main(&harness.Spec{
 		Property:    "C19",
 		Level:       "exploration",
-		Rule:        "random configuration trees (depth<=5, each of 6 variables present/absent at every level, loaded through viper.Set, generated YAML, VOUCH_* environment variables (as main.go configures viper) or a per-setting mixture incl. defaults) x lookup paths inside/below/beside the tree; a case is (variable, presence mask along the lookup chain, depth of the answering level, load mode); non-trivial = path has >=1 component and some level on the chain has a value",
+		Rule:        "random configuration trees (depth<=5, each of 6 variables present/absent at every level, loaded through viper.Set, generated YAML, VOUCH_* environment variables (as main.go configures viper) or a per-setting mixture incl. defaults) x lookup paths inside/below/beside the tree; every third tree also has the same lookups made from four goroutines at once and compared with the answers given alone; a case is (variable, presence mask along the lookup chain, depth of the answering level, load mode); non-trivial = path has >=1 component and some level on the chain has a value",
 		Run:         run,
 		MinDistinct: 50,
-		Assumptions: []string{"values avoid the encodings that mean 'unset' (zero duration, empty string, empty list)", "the global viper instance is used from one goroutine"},
+		Assumptions: []string{"values avoid the encodings that mean 'unset' (zero duration, empty string, empty list)", "the configuration is loaded from one goroutine; lookups are made from one goroutine and from four at once"},
 	})
 }
